@@ -2,7 +2,7 @@
    Print Assumptions.  The statements are about the executable definitions of Model*.v, i.e. about
    the very functions harness/c15.py evaluates against the real QMI code on every run. *)
 Require Import QV.C15.ModelBase QV.C15.ModelIB QV.C15.ModelUsbtmc QV.C15.ModelT2 QV.C15.ModelScpi QV.C15.ModelApt.
-Require Import QV.C15.ProofsIB QV.C15.ProofsUsbtmc QV.C15.ProofsT2 QV.C15.ProofsScpi QV.C15.ProofsApt.
+Require Import QV.C15.ProofsIB QV.C15.ProofsIBLin QV.C15.ProofsUsbtmc QV.C15.ProofsT2 QV.C15.ProofsScpi QV.C15.ProofsApt.
 Open Scope N_scope.
 
 (* ============================== NKT Interbus ========================================== *)
@@ -55,6 +55,19 @@ Theorem C15_ib_decode_sound : forall e m, ib_decode e = Ok m ->
     unescape body = [m_dest m; m_src m; m_type m; m_reg m] ++ m_data m ++ [c1; c2] /\ m_type m <= 9.
 Proof. exact ib_decode_sound. Qed.
 Print Assumptions C15_ib_decode_sound.
+
+(* every single-byte corruption of a body whose CRC verifies is detected (CRC linearity over GF(2)
+   + sweeps over the 255 byte differences and the 65 536 register states), for bodies of any length;
+   on the wire: a frame whose unescaped body is such a corruption is a ValueError *)
+Theorem C15_ib_single_byte : forall a x y b,
+  x < 256 -> y < 256 -> x <> y -> crc_of (a ++ x :: b) = 0 -> crc_of (a ++ y :: b) <> 0.
+Proof. exact crc_single_byte. Qed.
+Print Assumptions C15_ib_single_byte.
+Theorem C15_ib_single_byte_frame : forall body a x y b,
+  unescape body = a ++ y :: b -> crc_of (a ++ x :: b) = 0 -> x < 256 -> y < 256 -> x <> y ->
+  ib_decode (13 :: body ++ [10]) = Err EValue.
+Proof. exact ib_single_byte. Qed.
+Print Assumptions C15_ib_single_byte_frame.
 
 (* _request_response: a returned response mirrors the request's addresses and is one of the frames
    actually read; for every script of reads (timeouts, junk, stale replies ...) *)
@@ -264,23 +277,30 @@ Proof. exact apt_ask_sound. Qed.
 Print Assumptions C15_apt_ask_sound.
 
 (* ============================== non-vacuity ============================================= *)
-(* a message whose data and CRC both contain reserved bytes: data 0x5E 0x0A 0x0D, CRC = 0x5E?? *)
+(* data made of the three reserved bytes, register number 0x5E *)
 Example C15_ex_ib_valid : valid_msg (mkmsg 15 161 5 94 [94; 10; 13]).
 Proof. unfold valid_msg. cbn. lia. Qed.
 Example C15_ex_ib_encode :
   ib_encode (mkmsg 15 161 5 94 [94; 10; 13]) =
-    Ok [13; 15; 161; 5; 94; 158; 94; 158; 94; 74; 94; 77; 27; 41; 10] /\
-  ib_decode [13; 15; 161; 5; 94; 158; 94; 158; 94; 74; 94; 77; 27; 41; 10] = Ok (mkmsg 15 161 5 94 [94; 10; 13]).
+    Ok [13; 15; 161; 5; 94; 158; 94; 158; 94; 74; 94; 77; 161; 254; 10] /\
+  ib_decode [13; 15; 161; 5; 94; 158; 94; 158; 94; 74; 94; 77; 161; 254; 10] = Ok (mkmsg 15 161 5 94 [94; 10; 13]).
 Proof. vm_compute. split; reflexivity. Qed.
-(* reserved byte inside the CRC: body 01 A1 04 00 00 has CRC 0x5E.. or ..0x0A etc. is exercised by the harness;
-   here: a corrupted CRC byte is rejected, and so is a reply to somebody else *)
+(* reserved byte inside the CRC: body 0F A1 05 30 00 has CRC 0x175E, sent as 17 5E 9E *)
+Example C15_ex_ib_reserved_crc :
+  ib_encode (mkmsg 15 161 5 48 [0]) = Ok [13; 15; 161; 5; 48; 0; 23; 94; 158; 10] /\
+  ib_decode [13; 15; 161; 5; 48; 0; 23; 94; 158; 10] = Ok (mkmsg 15 161 5 48 [0]).
+Proof. vm_compute. split; reflexivity. Qed.
+(* a corrupted CRC byte is rejected *)
 Example C15_ex_ib_reject :
-  ib_decode [13; 15; 161; 5; 94; 158; 94; 158; 94; 74; 94; 77; 27; 42; 10] = Err EValue.
+  ib_decode [13; 15; 161; 5; 94; 158; 94; 158; 94; 74; 94; 77; 161; 255; 10] = Err EValue.
 Proof. vm_compute. reflexivity. Qed.
+Example C15_ex_ib_single_byte :
+  crc_of ([15; 161; 5; 48] ++ 0 :: [23; 94]) = 0 /\ crc_of ([15; 161; 5; 48] ++ 1 :: [23; 94]) = 14128.
+Proof. vm_compute. split; reflexivity. Qed.
 Example C15_ex_ib_rr :
-  let good := [13; 161; 15; 8; 97; 103; 97; 107; 10] in
+  let good := [13; 161; 15; 8; 97; 103; 97; 6; 211; 10] in
   request_response 1 15 4 97 [] [RdTimeout; RdBytes [13; 1; 2; 10]; RdBytes good] =
-    (0, [[13; 15; 161; 4; 97; 73; 156; 10]; [13; 15; 161; 4; 97; 73; 156; 10]; [13; 15; 161; 4; 97; 73; 156; 10]],
+    (0, [[13; 15; 161; 4; 97; 238; 1; 10]; [13; 15; 161; 4; 97; 238; 1; 10]; [13; 15; 161; 4; 97; 238; 1; 10]],
      ib_decode good) /\ exists m, ib_decode good = Ok m.
 Proof. vm_compute. split; [reflexivity|eexists; reflexivity]. Qed.
 
